@@ -123,6 +123,45 @@ def uskStr (nm : Names) (u : Usk) : Names × String :=
 def encStr (e : XEnc) : String :=
   "enc " ++ (if e.hybrid then "h" else "c") ++ " traps=" ++ toString e.ntraps ++ " n=" ++ toString e.targets.length
 
+/-! ## intended formulas (for `parse_eq`): prefix notation, tokens separated by `.`:
+`&` conjunction, `|` disjunction, `a<i>` the i-th atom of a fixed table -/
+
+inductive Form where
+  | atom (i : Nat)
+  | and (l r : Form)
+  | or (l r : Form)
+
+def formAtoms : List QA :=
+  [⟨"A", "a"⟩, ⟨"B", "b"⟩, ⟨"C", "c"⟩, ⟨"Dé", "é"⟩, ⟨"E", "e"⟩, ⟨"F", "f g"⟩]
+
+def parseForm : Nat → List String → Option (Form × List String)
+  | 0, _ => none
+  | _ + 1, [] => none
+  | fuel + 1, t :: rest =>
+    if t == "&" || t == "|" then
+      match parseForm fuel rest with
+      | none => none
+      | some (l, r1) =>
+        match parseForm fuel r1 with
+        | none => none
+        | some (r, r2) => some (if t == "&" then .and l r else .or l r, r2)
+    else match t.toList with
+      | 'a' :: ds => (String.ofList ds).toNat?.map (fun i => (.atom i, rest))
+      | _ => none
+
+def Form.eval (v : Nat → Bool) : Form → Bool
+  | .atom i => v i
+  | .and l r => l.eval v && r.eval v
+  | .or l r => l.eval v || r.eval v
+
+/-- is the parsed policy (and its DNF) equivalent to the intended formula under all assignments
+of the atom table? -/
+def equivalent (p : AP) (f : Form) : Bool :=
+  (List.range (2 ^ formAtoms.length)).all (fun m =>
+    let vi : Nat → Bool := fun i => (m / 2 ^ i) % 2 == 1
+    let v : QA → Bool := fun a => match formAtoms.findIdx? (· == a) with | some i => vi i | none => false
+    p.eval v == f.eval vi && evalDnf v p.toDnf == f.eval vi)
+
 /-! ## state -/
 
 structure St where
@@ -225,6 +264,13 @@ def step (st : St) (line : String) : St × String :=
       match parse txt with
       | .error e => (st, errLine e.toErr)
       | .ok p => (st, "ok " ++ apStr p ++ " dnf " ++ dnfStr p.toDnf)
+  | ["parse_eq", h, f] =>
+    match strOfHex (String.ofList (h.toList.drop 1)), parseForm 200 (f.splitOn ".") with
+    | some txt, some (form, []) =>
+      match parse txt with
+      | .error e => (st, errLine e.toErr)
+      | .ok p => (st, "ok eq=" ++ (if equivalent p form then "1" else "0"))
+    | _, _ => (st, "bad-op")
   | ["setup", ms, ks] =>
     match handle 'M' ms, handle 'K' ks with
     | some i, some k =>
